@@ -194,6 +194,11 @@ pub fn replay(path: &str) -> i32 {
         let path: Vec<String> = r["path"].as_array().map(|a| a.iter().filter_map(|x| x.as_str().map(|s| s.to_string())).collect()).unwrap_or_default();
         return c07::replay(script, &path);
     }
+    if r["engine"] == "ilv" && (prop == "C02" || prop == "C04" || prop == "C19") {
+        let programs: Vec<Vec<String>> = r["programs"].as_array().map(|a| a.iter().map(|p| p.as_array().map(|x| x.iter().filter_map(|s| s.as_str().map(|s| s.to_string())).collect()).unwrap_or_default()).collect()).unwrap_or_default();
+        let choices: Vec<usize> = r["choices"].as_array().map(|a| a.iter().filter_map(|x| x.as_u64().map(|n| n as usize)).collect()).unwrap_or_default();
+        return c02_ilv::replay_ilv(&prop, &programs, &choices);
+    }
     if r["engine"] == "c05" {
         return c05::replay_case(r["case"].as_str().unwrap_or(""));
     }
